@@ -16,8 +16,9 @@ CLAIMS = {
         "text": "Unbounded proof (Verus/Z3) that DefaultedLocales::default_of_inner / default_of return the first "
                 "locale on the inheritance chain that defines the key and the default locale when the chain loops, "
                 "for every inherits map (cycles, self reference, forks), that the walk terminates, that compute() "
-                "groups every defaulted locale under exactly that resolved locale, and that check_locales_inner hands "
-                "Locale::merge the locale named in `inherits` (explicitly) or else the default locale (implicitly). The "
+                "groups every defaulted locale under exactly that resolved locale, that check_locales_inner hands "
+                "Locale::merge the locale named in `inherits` (explicitly) or else the default locale (implicitly), and "
+                "that ParsedValue::merge records exactly `this locale -> that fallback` for a key the locale does not define. The "
                 "function bodies are extracted mechanically from /repo on every run.",
         "note": "Assumed: vstd's BTreeMap/HashSet/iterator specs; lawfulness of Key's hand-written Eq/Ord/Hash "
                 "(obeys_cmp, obeys_key_model for &Key, borrowed-key lookup = membership); Key identity abstracted to an "
@@ -92,8 +93,10 @@ CLAIMS = {
         "technique": "contract-based deductive verification (Verus) of the extracted real function + spec-level lemmas",
         "text": "Unbounded proof that push_js_string appends exactly one string literal whose decoded value is the "
                 "string, for every text, and that the emitted text contains no '<', no raw quote, no control or line "
-                "terminator character (cannot close the script element or leave the literal).",
-        "note": "Not covered: the surrounding loops of RegisterCtx::to_array (Mutex<HashMap>, generic L), which units are "
+                "terminator character (cannot close the script element or leave the literal); and that the body of the "
+                "loop of RegisterCtx::to_array (lifted verbatim, rule E3) appends for one unit exactly "
+                "{\"locale\":..,\"id\":..|null,\"values\":[its strings in order, comma separated]}.",
+        "note": "Not covered: the outer loop of RegisterCtx::to_array (Mutex<HashMap>, generic L), which units are "
                 "registered (generated code), HashMap iteration order; locale / id names are pushed unescaped "
                 "(identifier charset assumed).",
         "design_ref": "DESIGN.md section 3, C17",
